@@ -390,7 +390,7 @@ class Emitter:
         return 8
     def struct_def(s, nm, t):
         if isinstance(t, StructT):
-            def isword(f): return WORD_STORAGE and isinstance(f, ArrT) and isinstance(f.e, IntT) and f.e.bits == 8 and f.n >= 8 and f.n % 8 == 0
+            def isword(f): return WORD_STORAGE and not nm.startswith('struct L_') and isinstance(f, ArrT) and isinstance(f.e, IntT) and f.e.bits == 8 and f.n >= 8 and f.n % 8 == 0
             words_ok = True; attr = ' __attribute__((packed))' if t.packed else ''
             if not t.packed and any(isword(f) for f in t.fs):
                 # word storage raises the C alignment of the struct to 8; LLVM's alignment of [N x i8] is 1. Keep the LLVM layout:
@@ -591,6 +591,27 @@ class FnEmitter:
                 mm = re.match(r'^%\S+ = bitcast i8\* %("(?:[^"]*)"|[-a-zA-Z$._0-9]+) to (%("(?:[^"]*)"|[-a-zA-Z$._0-9]+))\*$', ln)
                 if mm and mm.group(1).strip('"') not in s.hints:
                     s.hints[mm.group(1).strip('"')] = NamedT(mm.group(2)[1:].strip('"'))
+        # small aggregates copied through an integer (SROA / ABI coercion: `%v = load i64, i64* %q ; store i64 %v, i64* %p`): find the
+        # struct type both sides really have, so that the copy can be emitted as a typed struct assignment (keeps fields constant)
+        s.bitcasts = {}; s.alloca_ty = {}; s.int_alloca_struct = {}
+        NM = r'("(?:[^"]*)"|[-a-zA-Z$._0-9]+)'
+        for (bn, ins) in blocks:
+            for ln in ins:
+                mm = re.match(r'^%' + NM + r' = bitcast (.+?)\* %' + NM + r' to (.+?)\*$', ln)
+                if mm:
+                    try: s.bitcasts[mm.group(1).strip('"')] = (parse_type(Sc(mm.group(2))), mm.group(3).strip('"'), parse_type(Sc(mm.group(4))))
+                    except Exception: pass
+                mm = re.match(r'^%' + NM + r' = alloca ([^,]+)', ln)
+                if mm:
+                    try: s.alloca_ty[mm.group(1).strip('"')] = parse_type(Sc(mm.group(2)))
+                    except Exception: pass
+        for nm_, (st_, src_, dt_) in s.bitcasts.items():
+            at_ = s.alloca_ty.get(src_)
+            if isinstance(at_, IntT) and isinstance(dt_, NamedT) and s.em.m.types.get(dt_.n) is not None:
+                try:
+                    if s.em.lsize(dt_) * 8 == at_.bits and src_ not in s.int_alloca_struct: s.int_alloca_struct[src_] = dt_
+                except Exception: pass
+        s.last_load = None
         # collect phis
         s.phis = {}  # block -> list of (name, type, [(val, pred)])
         for (bn, ins) in blocks:
@@ -609,6 +630,22 @@ class FnEmitter:
                 if re.match(r'^%("(?:[^"]*)"|[-a-zA-Z$._0-9]+) = phi ', ln): continue
                 s.instr(ln)
         return s
+    def lead_types(s, name):
+        """named struct types found at offset 0 of the object a local pointer points to (through bitcasts / integer allocas)"""
+        out = []
+        t = None
+        if name in s.int_alloca_struct: t = s.int_alloca_struct[name]
+        elif name in s.bitcasts:
+            st, src, dt = s.bitcasts[name]
+            if isinstance(st, NamedT): t = st
+            elif src in s.int_alloca_struct: t = s.int_alloca_struct[src]
+        elif isinstance(s.alloca_ty.get(name), NamedT): t = s.alloca_ty[name]
+        depth = 0
+        while isinstance(t, NamedT) and depth < 8:
+            out.append(t); body = s.em.m.types.get(t.n); depth += 1
+            if isinstance(body, StructT) and body.fs: t = body.fs[0]
+            else: break
+        return out
     def edge(s, tgt):
         ph = s.phis.get(tgt, [])
         code = []
@@ -673,9 +710,19 @@ class FnEmitter:
             sc.acc('atomic'); sc.acc('volatile'); t = parse_type(sc); sc.exp(','); pt = parse_type(sc); p = parse_value(sc, pt)
             e = '(*(%s*)%s)' % (s.ct(t), s.val(pt, p))
             if isinstance(t, IntT) and mask(t.bits) and t.bits < 64: e = s.trunc_to(t, e)
+            if isinstance(t, IntT) and t.bits in (16, 32, 64, 128) and p[0] == 'loc': s.last_load = (res, t.bits, p[1], len(o))
             return setres(t, e)
         if op == 'store':
             sc.acc('atomic'); sc.acc('volatile'); t = parse_type(sc); v = parse_value(sc, t); sc.exp(','); pt = parse_type(sc); p = parse_value(sc, pt)
+            ll = s.last_load
+            if ll and isinstance(t, IntT) and v[0] == 'loc' and v[1] == ll[0] and t.bits == ll[1] and p[0] == 'loc' and len(o) == ll[3] + 1:
+                ta = s.lead_types(ll[2]); tb = s.lead_types(p[1])
+                for T_ in ta:
+                    if any(T_.n == U_.n for U_ in tb):
+                        try: ok_ = s.em.lsize(T_) * 8 == t.bits
+                        except Exception: ok_ = False
+                        if ok_:
+                            o.append('if (sizeof(%s) == %d) *(%s*)%s = *(%s*)%s; else *(%s*)%s = %s; /* aggregate copied through an integer */' % (s.ct(T_), t.bits // 8, s.ct(T_), s.val(pt, p), s.ct(T_), s.loc(ll[2]), s.ct(t), s.val(pt, p), s.val(t, v))); return
             o.append('*(%s*)%s = %s;' % (s.ct(t), s.val(pt, p), s.val(t, v))); return
         if op == 'alloca':
             sc.acc('inalloca'); t = parse_type(sc); cnt = None
@@ -685,7 +732,9 @@ class FnEmitter:
                     if cnt[0] != 'int': raise Unsupported('dynamic alloca')
             n = cnt[1] if cnt else 1
             an = 'al_' + s.loc(res)
-            s.allocas.append('%s %s[%d];' % (s.ct(t), an, n))
+            st_ = s.int_alloca_struct.get(res)
+            if st_ is not None and n == 1: s.allocas.append('union { %s v; %s w; } %s[1];' % (s.ct(st_), s.ct(t), an))   # typed view of an SROA'd integer temporary
+            else: s.allocas.append('%s %s[%d];' % (s.ct(t), an, n))
             return setres(PtrT(t), '(char*)%s' % an)
         if op == 'br':
             if sc.acc('label'):
@@ -868,6 +917,16 @@ class FnEmitter:
                         if mm_:
                             nm_ = mm_.group(1)[1:].strip('"')
                             if s.em.m.types.get(nm_) is not None: T_ = NamedT(nm_); break
+                if T_ is None:
+                    # no direct bitcast from a struct pointer: look for a struct type of exactly n bytes at offset 0 of either operand
+                    for k_ in (0, 1):
+                        v_ = args[k_][1]
+                        if v_[0] == 'loc':
+                            for U_ in s.lead_types(v_[1]):
+                                try:
+                                    if s.em.lsize(U_) == n_: T_ = U_; break
+                                except Exception: pass
+                        if T_ is not None: break
                 words = ' '.join('((char**)d_)[%d] = ((char**)s_)[%d];' % (i_, i_) for i_ in range(n_ // 8))
                 tail = ' '.join('d_[%d] = s_[%d];' % (i_, i_) for i_ in range(n_ - n_ % 8, n_))
                 generic = '{ %s %s }' % (words, tail)
